@@ -197,6 +197,7 @@ func matchesWindow(b, w []byte) bool {
 
 // c18Check applies the refinement oracle to the IDs built in one phase.
 func c18Check(r *core.Run, ids []builtID, ent *TaskEntropy, nStreams int, ctx map[string]any) {
+	nStreams = len(ent.streams) // including the stream served to goroutines the library started itself
 	used := make([]map[int]string, nStreams) // stream -> window offset -> id
 	for i := range used {
 		used[i] = map[int]string{}
@@ -378,10 +379,12 @@ func c18Run(r *core.Run) {
 			}
 		}
 		if sz := raceLogSize(); sz > raceBefore {
-			rep := raceLogTail(raceBefore)
-			ctx["race_report"] = trunc(rep, 3000)
-			r.Fail("race", "C18/data-race/"+raceSummary(rep), ctx)
-			return
+			if rep := libraryRaces(raceLogTail(raceBefore)); rep != "" {
+				ctx["race_report"] = trunc(rep, 3000)
+				r.Fail("race", "C18/data-race/"+raceSummary(rep), ctx)
+				return
+			}
+			r.Probe("race_report_on_harness_memory_ignored")
 		}
 		var all []builtID
 		for _, rs := range results {
